@@ -242,3 +242,18 @@ Definition exp_lost (R : list outcome) : list (Q * pkt) :=
 (* what the wire holds: the packet propagating and everything in the store (incl. a granted get) *)
 Definition wheld (w : wire) : list pkt :=
   match hold w with Some (p, _) => [p] | None => [] end ++ map snd (sq_held (wq w)).
+
+(* ---- correspondence under late configuration ------------------------------------------------ *)
+(* loss_rate is a public attribute that run() reads every time it takes a packet; an observed execution may
+   therefore carry, per action, the value in force when the action happened. *)
+Fixpoint wire_agree_cfg (w : wire) (obs : list (option Q * (waction * list wout * (Z * nat)))) : bool :=
+  match obs with
+  | [] => true
+  | (loss, (a, outs, (r, n))) :: rest =>
+      match wire_act loss w a with
+      | None => false
+      | Some (w', outs') =>
+          outs_eqb (deliveries outs') outs && Z.eqb (nrec w') r && Nat.eqb (length (items (wq w'))) n
+          && wire_agree_cfg w' rest
+      end
+  end.
